@@ -720,6 +720,12 @@ def corpus():
         ['deep', 'list', 300, N('int')], ['deep', 'list', 256, N('int')], ['deep', 'Union2', 100, N('int')], ['deep', 'list', 1500, N('int')],
         ['ga', ['v', 'int', 5], [N('int')]],
         ['nt', ['v', 'int', 5]], ['nt', N('bool')], ['nt', N('EnumC')], ['sub', N('type'), [['s', 'int | nonexistent']]],
+        # Annotated with a validator FIRST and a non-validator later, over ignorable and unignorable base hints
+        ['sub', N('Annotated'), [N('object'), ['is', ['T']], ['v', 'str', 'note']]],
+        ['sub', N('Annotated'), [N('Any'), ['is', ['T']], ['v', 'int', 5]]],
+        ['sub', N('Annotated'), [N('int'), ['is', ['T']], ['v', 'str', 'note']]],
+        ['sub', N('list'), [['sub', N('Annotated'), [N('object'), ['is', ['T']], ['v', 'str', 'note']]]]],
+        ['sub', N('Optional'), [['sub', N('Annotated'), [N('object'), ['is', ['F']], ['v', 'int', 0]]]]],
         # forward references that become resolvable only after the decoration, to a class / an alias / a literal / a value,
         # plain and under type[...]
         ['s', 'C11_LATE_CLASS'], ['s', 'C11_LATE_ALIAS'], ['s', 'C11_LATE_VALUE'],
